@@ -386,3 +386,57 @@ class PathFlow:
                     e2.known[dl] = dv
             res.append((q2, dv, e2))
         return res
+
+
+def must_pass(facts, key, a_blocks, b_blocks):
+    """Path-sensitive domination: does every FEASIBLE path of `key` that reaches the end of a block in b_blocks pass the end of some
+    block in a_blocks first?  Feasibility is what PathFlow knows: the variant of Result / Option values and constant flags, so that the
+    Ok and Err outcomes of a helper spliced into the body (which share a join block in the CFG) are kept apart.  Returns the set of
+    blocks of b_blocks that can be reached without passing A (empty = holds), or None if the exploration failed."""
+    class _Au(Automaton):
+        init = (False, frozenset())
+
+        def _at(self_, q, f, bi):
+            if f['key'] != key:
+                return q
+            seen, bad = q
+            if bi in b_blocks and not seen:
+                bad = bad | {bi}
+            if bi in a_blocks:
+                seen = True
+            return (seen, bad)
+
+        def on_term(self_, q, f, bi, t, env):
+            return self_._at(q, f, bi)
+
+        def on_return(self_, q, f, bi, kind, env):
+            return self_._at(q, f, bi)
+
+        def on_call(self_, q, f, bi, t, env, flow):
+            if f['key'] != key:
+                return None
+            q2 = self_._at(q, f, bi)
+            if q2 == q:
+                return None
+            # keep the default treatment of the call (outcome forks) but with the updated state
+            outs = []
+            saved = flow.au
+            try:
+                class _Plain(Automaton):
+                    init = q2
+                flow.au = _Plain()
+                for (q3, dv, e3) in flow._call(f, bi, t, q2, env):
+                    outs.append((q2, dv))
+            finally:
+                flow.au = saved
+            return outs or [(q2, None)]
+    a_blocks, b_blocks = set(a_blocks), set(b_blocks)
+    try:
+        flow = PathFlow(facts, _Au())
+        exits = flow.summary(key, _Au.init)
+    except Exception:  # noqa
+        return None
+    bad = set()
+    for (q, kind) in exits:
+        bad |= set(q[1])
+    return bad
